@@ -357,15 +357,27 @@ def judge_seam(src: str, res: Dict[str, Any]) -> None:
            f'def f(p={canon}): pass\n')
     s = pd.build_mem([pd.Mod('m', mod)])
     res['evals'] += 1
+    if 'm.K' not in s.allobjects:
+        core.bump(res, 'seam_skipped_module_not_buildable')     # e.g. a lone surrogate cannot be written to a source file
+        return
     direct = shown(ast.parse(canon, mode='eval').body)
     # constant value
     k = s.allobjects['m.K']
     cv = flatten_text(epydoc2stan.format_constant_value(k))  # type: ignore
     sig = flatten_text(pages.format_signature(s.allobjects['m.f']))  # type: ignore
     case = {'kind': 'seam', 'src': canon}
-    if wsfree(direct) not in wsfree(cv):
+    faithful_inline = verdict(ast.parse(canon, mode='eval').body) is None
+
+    def reads_back(text: str) -> bool:
+        try:
+            return norm(ast.parse(text.replace('\u21b5\n', '').strip(), mode='eval').body) == norm(e)
+        except (SyntaxError, ValueError):
+            return False
+    # the value table lays the value out as a block (a string with line breaks becomes a triple-quoted block): judged by what it reads back as
+    if faithful_inline and wsfree(direct) not in wsfree(cv) and not cv.rstrip().endswith('...') and not reads_back(cv.split('Value', 1)[-1]):      # ('...' = cut, judged by the block part)
         res['violations'].append(core.violation(f'seam/constant-value/{tname(e)}', f'constant value of {canon!r} renders {cv!r}, colorizer alone gives {direct!r}', case))
-    if wsfree(direct) not in wsfree(sig):
+    # a signature that cannot be rendered at all is replaced by '(...)' and reported (pinned behaviour): nothing is displayed, nothing to compare
+    if sig.strip() != '(...)' and wsfree(direct) not in wsfree(sig):
         res['violations'].append(core.violation(f'seam/default/{tname(e)}', f'default {canon!r} renders in signature {sig!r}, colorizer alone gives {direct!r}', case))
     res['nontrivial'].add(core.h('seam', canon))
 
@@ -492,7 +504,7 @@ def run_job(job: Any, tier: str) -> Dict[str, Any]:
         if not res['samples']:
             res['samples'].append({'value': TRUNC_VALUES[job[1]], 'linelens': LINELENS, 'maxlines': MAXLINES})
     elif k == 'seam':
-        for src in SEAM_EXPRS:
+        for src in SEAM_EXPRS + LEAVES + ["'zz\\uffff'", "'\\ufffe'", "b'\\xef\\xbf\\xbe'", "['\\uffff', 1]", "{'k': '\\ufffe'}", "'a\\x0cb'", "'\\x1f'"]:
             judge_seam(src, res)
     return res
 
